@@ -242,7 +242,7 @@ def keyString (u : Uni) (k : Key) : Str :=
     let val : Int := if kc = 0 then 64 else if kc ≤ 0x1A then kc + 0x60 else kc + 0x40
     [67, 116, 114, 108, 43, val]  -- "Ctrl+%c"
   else if kc ≤ maxRune then
-    pre ++ strOfRune (if k.mods &&& ModCapsLock ≠ 0 then u.toUpper kc else kc) ++ findKeyName kc keyNames
+    pre ++ strOfRune (if k.mods &&& ModCapsLock ≠ 0 ∧ k.text = strOfRune (u.toUpper kc) then u.toUpper kc else kc) ++ findKeyName kc keyNames
   else pre ++ findKeyName kc keyNames
 
 end VaxisModel.Model.Key
